@@ -18,11 +18,18 @@ type pcfg struct {
 	Q        []uint64 `json:"Q"`
 	P        []uint64 `json:"P"`
 	QBits    []int    `json:"qbits"`
-	XsH      int      `json:"xsH"` // 0: default ternary (P=2/3), >0: fixed Hamming weight
+	XsH      int      `json:"xsH"`               // 0: default ternary (P=2/3), >0: fixed Hamming weight
+	Tag      string   `json:"tag,omitempty"`     // boundary parameter sets: which boundary
+	XeSigma  float64  `json:"xeSigma,omitempty"` // 0: default error distribution (sigma 3.2, bound 19.2)
+	XeBound  float64  `json:"xeBound,omitempty"`
 }
 
 func (p pcfg) id() string {
-	return fmt.Sprintf("%s/logN%d/s%d/q%d+p%d/h%d/%x", p.Fam, p.LogN, p.LogScale, len(p.Q), len(p.P), p.XsH, p.Q[len(p.Q)-1]&0xffff)
+	id := fmt.Sprintf("%s/logN%d/s%d/q%d+p%d/h%d/%x", p.Fam, p.LogN, p.LogScale, len(p.Q), len(p.P), p.XsH, p.Q[len(p.Q)-1]&0xffff)
+	if p.Tag != "" {
+		id += "/" + p.Tag
+	}
+	return id
 }
 
 // mkcfg draws a chain: `depth` rescalings available above the base modulus.
@@ -172,13 +179,28 @@ func cases(tier string, seed int64) []eng.Case {
 	if tier == "thorough" {
 		nprog, steps = 30, 24
 	}
-	for _, cfg := range cfgs(tier, seed) {
-		cfg := cfg
-		for _, kind := range []string{"scalar", "vector", "scale", "addsub", "mta"} {
-			kind := kind
+	nedge := 3
+	if tier == "thorough" {
+		nedge = 10
+	}
+	// kind-major order: the engine shards by case index, so neighbours should cost about the same
+	all := append(cfgs(tier, seed), edgeCfgs(tier, seed)...)
+	for _, kind := range []string{"scalar", "vector", "scale", "addsub", "mta", "xscalar", "recv", "refuse"} {
+		for _, cfg := range all {
+			kind, cfg := kind, cfg
 			out = append(out, eng.Case{ID: kind + "/" + cfg.id(), Sig: "C06|" + kind, Desc: cfg, Run: func(c *eng.Ctx) { runDirected(c, cfg, kind) }})
 		}
-		for i := 0; i < nprog; i++ {
+	}
+	for _, cfg := range all {
+		cfg := cfg
+		out = append(out, eng.Case{ID: "copy/" + cfg.id(), Sig: "C06|copy", Desc: cfg, Run: func(c *eng.Ctx) { runCopy(c, cfg, steps) }})
+	}
+	for i := 0; i < nprog; i++ {
+		for _, cfg := range all {
+			cfg := cfg
+			if cfg.Tag != "" && i >= nedge {
+				continue
+			}
 			out = append(out, eng.Case{ID: fmt.Sprintf("prog%d/%s", i, cfg.id()), Sig: "C06|program", Desc: cfg, Run: func(c *eng.Ctx) { runProg(c, cfg, steps) }})
 		}
 	}
@@ -188,13 +210,15 @@ func cases(tier string, seed int64) []eng.Case {
 func init() {
 	eng.Register(&eng.Monitor{
 		ID: "C06", Level: "exploration",
-		Rule:  "cases = (kind, parameter set); parameter sets vary ring type (standard / conjugate-invariant), logN 4..11, default scale 20..55 bits (one prime per rescaling) and 65..100 bits (two primes per rescaling, arbitrary-precision encoder), chain depth, primes at 0.65..1.0 x the scale, #P, secret weight. kind 'prog' = random straight-line program (up to 18 (quick) / 24 (thorough) evaluator calls chosen adaptively so that the message always fits the modulus) over a pool of ciphertexts/plaintexts with equal and unequal scales, levels, degrees and slot counts; the other kinds enumerate one API family: scalar = {Add,Sub,Mul,MulThenAdd} x 9 scalar Go types x value classes x receivers; vector = same x 4 vector types x lengths x sparse packings; scale = Rescale/RescaleTo (threshold boundaries)/SetScale (ratios)/ScaleUp/DropLevel at every level; addsub = Add/Sub with scale ratios {1, integer, prime, non-integer, 1+eps} x operand order x receiver aliasing x degree; mta = MulThenAdd/MulRelinThenAdd accumulator scale/level/degree relations. EVERY evaluator call is judged (scale exact to 2^-100, level, degree, dimensions, decrypted value within the one-step worst-case budget). distinct key = (op, operand kind and value class, receiver mode, scale relation, level relation, degrees, slot class, family, scale decade) and, for programs, the normalised program text; non-trivial = anything but a standard-ring PREC64 ciphertext-ciphertext call with equal scales and levels into a fresh full-slot receiver (i.e. other operand kind, unequal scale or level, aliased or dirty receiver, degree 2, sparse packing, conjugate-invariant ring, PREC128, error outcome) or a program of multiplicative depth >= 2.",
+		Rule:  "cases = (kind, parameter set); parameter sets vary ring type (standard / conjugate-invariant), logN 4..11, default scale 20..55 bits (one prime per rescaling) and 65..100 bits (two primes per rescaling, arbitrary-precision encoder), chain depth, primes at 0.65..1.0 x the scale, #P, secret weight. kind 'prog' = random straight-line program (up to 18 (quick) / 24 (thorough) evaluator calls chosen adaptively so that the message always fits the modulus) over a pool of ciphertexts/plaintexts with equal and unequal scales, levels, degrees and slot counts; the other kinds enumerate one API family: scalar = {Add,Sub,Mul,MulThenAdd} x 9 scalar Go types x value classes x receivers; vector = same x 4 vector types x lengths x sparse packings; scale = Rescale/RescaleTo (threshold boundaries)/SetScale (ratios)/ScaleUp/DropLevel at every level; addsub = Add/Sub with scale ratios {1, integer, prime, non-integer, 1+eps} x operand order x receiver aliasing x degree; mta = MulThenAdd/MulRelinThenAdd accumulator scale/level/degree relations; xscalar = boundary values of every scalar Go type (MinInt64, MaxUint64, 2^64..2^127 big integers, -0, denormals, mixed real/imaginary integrality, big.Float of 10..500 bits) x {Add,Sub,Mul,MulThenAdd} and scalar/vector operands at level 0; recv = used receivers whose degree differs from the degree of the result (one component more with stale data / one less) for Add/Sub/Mul/MulRelin x operand kinds, Rescale, RescaleTo, ScaleUp, Relinearize; refuse = every refusal the evaluator documents (operand type outside the list, vector longer than MaxSlots, non-NTT / non-batched / nil-MetaData operands, two degree-0 operands, degree-2 input or receiver of a rotation, degree-1 input of Relinearize, degree-2 operand of a multiplication, missing relinearisation / Galois key with an empty and with a nil key set, Rescale below the first rescalable level, RescaleTo at level 0 / minScale 0 / scale 0, MulThenAdd with opOut==op0/op1 or op0.Scale>opOut.Scale, Conjugate in the conjugate-invariant ring) must return an error (a panic or success is a violation), leave the input operands bit-identical, and the evaluator must go on working; copy = a random program whose calls are spread over the constructor evaluator and evaluators derived from it by ShallowCopy / WithKey (chained, before and after use), plus an evaluator restricted to the relinearisation key. The scale cases also check rotations by 0 / multiples of the slot count / k +- slots, RotateHoisted into caller-supplied (higher-level, used) receivers, Parameters.{PrecisionMode,QLvl,LogQLvl,MaxSlots,GetOptimalScalingFactor (direct and composed with Mul+Rescale)} and the rlwe.Scale arithmetic (Mul/Div to 2^-127, Cmp/Max/Min/Equal exactly, Float64/Uint64/BigInt/Log2/Log2Delta/InDelta). Boundary parameter sets (tag in the case id): single modulus (L0), no auxiliary modulus (noP; hoisted rotations are not defined there), 9..11 RNS digits, 61-bit Q0 and P next to 20..30-bit primes (q61), error distribution with bound 1 or 153.6, secret of weight 1 or N. EVERY evaluator call is judged (scale exact to 2^-100, level, degree, dimensions, decrypted value within the one-step worst-case budget). distinct key = (op, operand kind and value class, receiver mode, scale relation, level relation, degrees, slot class, family, scale decade) and, for programs, the normalised program text; non-trivial = anything but a standard-ring PREC64 ciphertext-ciphertext call with equal scales and levels into a fresh full-slot receiver (i.e. other operand kind, unequal scale or level, aliased or dirty receiver, degree 2, sparse packing, conjugate-invariant ring, PREC128, error outcome) or a program of multiplicative depth >= 2.",
 		Cases: cases,
 		Assumptions: []string{
 			"oracle arithmetic is math/big at 256 bits: slot values are observed with rlwe.Decryptor + lattigo's INTT (judged by C01) followed by an independent CRT lift and an independent big-float DFT over all N/2 (N) slots; the library decoder is only exercised as the object under test at the end of programs",
 			"worst-case noise constants: |e|<=floor(6 sigma)+1, rounding <=1.5 per component and rescaling, key-switch digits <= (a+1)*Q_digit, mod-down error <= #P+2, |tau(s)| measured from the actual secret, canonical embedding norm <= N (2N conjugate-invariant) * coefficient norm, FFT error <= 64*n*2^-prec*|v|",
 			"scalars are read at EncodingPrecision bits (bignum.ToComplex), vector operands must fit op0's slot count, non-integer scale ratios in Add/Sub are modelled as the code documents (multiplication by floor(ratio))",
 			"a budget that exceeds 2^-6*max(|m|,1) is counted as weak (counter weak_budget_checks): such a check still bounds gross errors only",
+			"a receiver of larger degree than the result may keep its degree (extra components zero) or be shrunk: both are accepted, the decrypted value decides; an identity rotation (Galois element 1) may return the level of the input or min(input, receiver)",
+			"out of the documented domain, hence not generated: ScaleUp by a non-integer or >= 2^64 scale (in-tree callers pass rounded integers), a non-integer constant or a vector in Mul below the first rescalable level, vectors longer than op0's slot count but within MaxSlots, hoisted rotations without auxiliary modulus, scalar NaN/Inf, nil components of *bignum.Complex",
 		},
 	})
 }
@@ -204,6 +228,9 @@ func init() {
 
 func (s *st) maxMagAt(scale *big.Float, level int) float64 {
 	// largest |m| such that scale*|m| fits with 3 bits to spare
+	if level < 0 {
+		return 0 // below the chain (single-modulus parameters): no room at all
+	}
 	return math.Exp2(s.logQ[level] - flog2(scale) - 3.5)
 }
 
@@ -267,6 +294,12 @@ func runProg(c *eng.Ctx, cfg pcfg, steps int) {
 	if s == nil {
 		return
 	}
+	s.runBody(steps, "prog")
+}
+
+// runBody: one random program. When s.evals is set every call goes to one of these evaluators.
+func (s *st) runBody(steps int, what string) {
+	c, cfg := s.c, s.cfg
 	r := s.rnd
 	L := s.params.MaxLevel()
 	ls0 := s.logMax
@@ -314,6 +347,18 @@ func runProg(c *eng.Ctx, cfg pcfg, steps int) {
 	kinds := map[string]bool{}
 	maxDepth := 0
 	for step := 0; step < steps && !s.dead; step++ {
+		if len(s.evals) > 0 {
+			if s.lateCopies && step == steps/2 { // copies taken from evaluators that have been used
+				s.evals = append(s.evals,
+					namedEval{"ShallowCopy-after-use", s.evals[0].ev.ShallowCopy()},
+					namedEval{"WithKey-after-use", s.evals[1].ev.WithKey(s.keySet())})
+			}
+			ne := s.evals[r.N(len(s.evals))]
+			s.eval, s.evTag = ne.ev, ne.name
+			if ne.name != "" {
+				s.note("@%s", ne.name)
+			}
+		}
 		s.step(kinds)
 		// keep the pool small: drop the lowest-level ciphertexts first
 		for len(s.pool) > 8 {
@@ -342,11 +387,14 @@ func runProg(c *eng.Ctx, cfg pcfg, steps int) {
 	for _, e := range s.pool {
 		uneq = uneq || e.uneq
 	}
-	c.Distinct("prog|"+cfg.Fam+"|"+fmt.Sprint(s.prog), maxDepth >= 2 || len(kinds) >= 2 || uneq)
+	c.Distinct(what+"|"+cfg.Fam+"|"+fmt.Sprint(s.prog), maxDepth >= 2 || len(kinds) >= 2 || uneq || what != "prog")
 	if maxDepth >= 2 {
 		c.Count("programs_depth_ge2", 1)
 	}
-	c.Sample(map[string]any{"kind": "prog", "cfg": cfg.id(), "logSlots": ls0, "depth": maxDepth, "program": s.prog})
+	if what != "prog" {
+		c.Count("programs_on_derived_evaluators", 1)
+	}
+	c.Sample(map[string]any{"kind": what, "cfg": cfg.id(), "logSlots": ls0, "depth": maxDepth, "program": s.prog})
 	c.Max("max_program_depth", int64(maxDepth))
 	c.Count("program_calls", int64(len(s.prog)))
 }
@@ -429,7 +477,7 @@ func (s *st) step(kinds map[string]bool) {
 		case w < 92:
 			if r.N(3) == 0 {
 				res, skipped = s.rotate(a, 0, true, eng.Pick(r, "fresh", "new", "op0", "garbage"))
-			} else if r.N(6) == 0 && a.deg() == 1 {
+			} else if r.N(6) == 0 && a.deg() == 1 && s.hasP {
 				s.rotateHoisted(a, []int{s.rots[r.N(len(s.rots))], s.rots[0]})
 			} else {
 				res, skipped = s.rotate(a, s.rots[r.N(len(s.rots))], false, eng.Pick(r, "fresh", "new", "op0", "garbage"))
@@ -599,11 +647,21 @@ func runDirected(c *eng.Ctx, cfg pcfg, kind string) {
 	switch kind {
 	case "scalar":
 		s.dirScalar()
+	case "xscalar":
+		s.dirExtreme()
+		s.dirLevel0()
+	case "recv":
+		s.dirRecv()
+	case "refuse":
+		s.dirRefuse()
 	case "vector":
 		s.probeCI1Slot()
 		s.dirVector()
 	case "scale":
 		s.dirScale()
+		s.dirRotId()
+		s.dirParams()
+		s.dirScaleArith()
 	case "addsub":
 		s.dirAddSub()
 	case "mta":
@@ -896,7 +954,7 @@ func (s *st) dirScale() {
 		if a := s.base(lvl, s.defScale, s.randLogSlots(), dirty); a != nil {
 			s.rotate(a, 0, true, eng.Pick(r, "fresh", "new", "op0", "garbage"))
 		}
-		if a := s.base(lvl, s.hostileScale(s.defScale, r.N(6)), s.randLogSlots(), dirty); a != nil {
+		if a := s.base(lvl, s.hostileScale(s.defScale, r.N(6)), s.randLogSlots(), dirty); a != nil && s.hasP {
 			s.rotateHoisted(a, s.rots)
 		}
 	}
